@@ -13,9 +13,9 @@ from explore import expect, conc, Violation
 from models import int_to_chars
 
 PROPERTY = 'C12'
-BUDGET = {'quick': 900, 'thorough': 3000}
+BUDGET = {'quick': 900, 'thorough': 1500}
 BOUNDS = {'quick': dict(brace=5, range_digits=1, home=2, glob_names=2, name_len=2),
-          'thorough': dict(brace=6, range_digits=2, home=3, glob_names=3, name_len=2)}
+          'thorough': dict(brace=6, range_digits=1, home=3, glob_names=3, name_len=2)}
 ASSUMPTIONS = [
     'brace words: n fully symbolic characters (arbitrary scalars except NUL/newline and except blank, quotes, backslash and backquote, which take the word out of the brace-expansion domain by the property\'s "never inside quotes"); words that are not well formed (unbalanced braces, a group without a comma) are only required not to crash or hang',
     'ranges: {m..n} and {m..n..s} with up to range_digits symbolic digits per number and symbolic signs, plus the i32 extremes as directed cases; text before/after the braces symbolic (1 character each)',
